@@ -60,6 +60,7 @@ type Net struct {
 	Distinct      bool                                           // force distinct delivery instants per destination
 	lastDeliv     map[string]time.Time
 	blocked       map[[2]string]bool // directed pair blocked (partition)
+	udpBlocked    map[[2]string]bool // datagrams only (streams still connect)
 	packets       []*PacketEvent
 	streams       []*StreamEvent
 	OnPacket      []func(ev *PacketEvent)
@@ -78,6 +79,7 @@ func NewNet(seed int64) *Net {
 		rng:          rand.New(rand.NewSource(seed)),
 		lastDeliv:    map[string]time.Time{},
 		blocked:      map[[2]string]bool{},
+		udpBlocked:   map[[2]string]bool{},
 		Distinct:     true,
 		KeepTrace:    true,
 		DefaultDelay: 200 * time.Microsecond,
@@ -111,6 +113,17 @@ func (n *Net) Block(from, to string, on bool) {
 		n.blocked[[2]string{from, to}] = true
 	} else {
 		delete(n.blocked, [2]string{from, to})
+	}
+}
+
+// BlockUDP drops datagrams (only) between a directed pair.
+func (n *Net) BlockUDP(from, to string, on bool) {
+	n.mu.Lock()
+	defer n.mu.Unlock()
+	if on {
+		n.udpBlocked[[2]string{from, to}] = true
+	} else {
+		delete(n.udpBlocked, [2]string{from, to})
 	}
 }
 
@@ -241,7 +254,7 @@ func (e *Endpoint) WriteToAddress(b []byte, a memberlist.Address) (time.Time, er
 	e.WritesOK.Add(1)
 	n.mu.Lock()
 	dst := n.eps[a.Addr]
-	blocked := n.blocked[[2]string{e.Addr, a.Addr}]
+	blocked := n.blocked[[2]string{e.Addr, a.Addr}] || n.udpBlocked[[2]string{e.Addr, a.Addr}]
 	n.mu.Unlock()
 	var fate Fate
 	if n.Policy != nil {
